@@ -400,4 +400,49 @@ static long pgen_L5 (PgenCb cb, void *user)
   return count;
 }
 
+/* L6: every plain opcode (and the accumulating ones) under register pressure: k filler temporaries are live across
+ * the tested instruction, so that its operands are allocated in the upper registers (xmm8..15: REX/VEX extension
+ * bits, three-byte VEX forms).  All-array operands, x1, 1-D. */
+static long pgen_L6 (PgenCb cb, void *user, int classes)
+{
+  long count = 0;
+  int oi, ki;
+  static const int ks[] = { 7, 9, 12 };
+  for (oi = 0; oi < v_nops; oi++) {
+    const OrcStaticOpcode *o = &v_ops[oi];
+    int nsrc = op_nsrc (o), isf = op_is_float (o);
+    if (o->flags & (ORC_STATIC_OPCODE_LOAD | ORC_STATIC_OPCODE_STORE)) continue;
+    if (isf && !(classes & PG_FLOAT)) continue;
+    if (!isf && !(classes & PG_INT)) continue;
+    for (ki = 0; ki < 3; ki++) {
+      VProg p;
+      int k = ks[ki], i, args[4], na = 0, f[12], sf, df;
+      memset (&p, 0, sizeof (p));
+      if (o->flags & ORC_STATIC_OPCODE_ACCUMULATOR) args[na++] = vprog_addvar (&p, VK_A, o->dest_size[0]);
+      else {
+        args[na++] = vprog_addvar (&p, VK_D, o->dest_size[0]);
+        if (o->dest_size[1]) args[na++] = vprog_addvar (&p, VK_D, o->dest_size[1]);
+      }
+      for (i = 0; i < nsrc; i++) {
+        if ((o->flags & ORC_STATIC_OPCODE_SCALAR) && i >= 1) {
+          int c = vprog_addvar (&p, VK_C, o->src_size[i]);
+          p.v[c].cval = op_is_shift (o) ? 3 : 2;
+          args[na++] = c;
+        } else args[na++] = vprog_addvar (&p, VK_S, o->src_size[i]);
+      }
+      sf = vprog_addvar (&p, VK_S, 4);
+      df = vprog_addvar (&p, VK_D, 4);
+      for (i = 0; i < k; i++) f[i] = vprog_addvar (&p, VK_T, 4);
+      for (i = 0; i < k; i++) vprog_addinsn (&p, "copyl", 0, 2, f[i], sf, -1, -1);
+      vprog_addinsn (&p, o->name, 0, na, args[0], na > 1 ? args[1] : -1, na > 2 ? args[2] : -1, na > 3 ? args[3] : -1);
+      for (i = 1; i < k; i++) vprog_addinsn (&p, "xorl", 0, 3, f[0], f[0], f[i], -1);
+      vprog_addinsn (&p, "copyl", 0, 2, df, f[0], -1, -1);
+      pg_name (&p, "L6", count);
+      cb (&p, user);
+      count++;
+    }
+  }
+  return count;
+}
+
 #endif
